@@ -66,6 +66,25 @@ def carve_rules(F, ok, rep, P):
     rep.floor(P + ".carve", "placeholder refills", len(te), 1)
 
 
+def cap_rules(F, rep, P, maxpts):
+    """every seek table built by the encoder is capped at SeekTable::MAX_POINTS before the infallible conversion"""
+    # ---- C09.cap -----------------------------------------------------------------------------------------
+    ncap = 0
+    for path in ("encode::Encoder::new", "encode::Encoder::finalize_inner", "encode::generate_seektable"):
+        fb = anchor(F, rep, P + ".cap", path)
+        if fb is None:
+            continue
+        for body in region(F, fb):
+            for bi, t in body.calls():
+                if callee_name(t).endswith("TryInto<U>>::try_into") and "Contiguous<932067, metadata::SeekPoint>" in " ".join(t["f"]["args"]):
+                    ncap += 1
+                    # backward slice through collect/map to a take(MAX_POINTS)
+                    capped = _has_take(body, t["a"][0], maxpts)
+                    rep.check(P + ".cap", "%s caps the seek points at MAX_POINTS before try_into().unwrap()" % strip_generics(body.path), capped, loc_of(body, t), "",
+                              "a seek table is built from an uncapped iterator: more than %s frames would panic in try_into().unwrap()" % maxpts)
+    rep.floor(P + ".cap", "seek table builders", ncap, 3)
+
+
 def run(ctx, rep):
     F = ctx.facts()
     cg = ctx.cg()
@@ -131,21 +150,7 @@ def run(ctx, rep):
                 fact_match(pf.get(bi, frozenset()), "cmp", "^Ne$", "samples_written|NonZero::get", "samples_written|NonZero::get") for bi, s in agg_sites(b, "Error", "SampleCountMismatch")), loc_of(b))
         carve_rules(F, ok, rep, "C09")
 
-    # ---- C09.cap -----------------------------------------------------------------------------------------
-    ncap = 0
-    for path in ("encode::Encoder::new", "encode::Encoder::finalize_inner", "encode::generate_seektable"):
-        fb = anchor(F, rep, "C09.cap", path)
-        if fb is None:
-            continue
-        for body in region(F, fb):
-            for bi, t in body.calls():
-                if callee_name(t).endswith("TryInto<U>>::try_into") and "Contiguous<932067, metadata::SeekPoint>" in " ".join(t["f"]["args"]):
-                    ncap += 1
-                    # backward slice through collect/map to a take(MAX_POINTS)
-                    capped = _has_take(body, t["a"][0], maxpts)
-                    rep.check("C09.cap", "%s caps the seek points at MAX_POINTS before try_into().unwrap()" % strip_generics(body.path), capped, loc_of(body, t), "",
-                              "a seek table is built from an uncapped iterator: more than %s frames would panic in try_into().unwrap()" % maxpts)
-    rep.floor("C09.cap", "seek table builders", ncap, 3)
+    cap_rules(F, rep, "C09", maxpts)
 
     # ---- C09.start ------------------------------------------------------------------------------------------
     nb = anchor(F, rep, "C09.start", "encode::Encoder::new")
